@@ -44,6 +44,13 @@ PROPS = {
         gen_obligations=['Gen.Vbit', 'Gen.typeIds', 'Gen.avpLayoutDec'],
         trusted=CODEC_TRUST,
     ),
+    "C05": dict(
+        domains=[("stream", "read", 6000, 80000), ("stream", "exhaustive", 1500, 6000)],
+        relevant=["C05:"],
+        theorems=["DV.Props.C05."+t for t in ["C05_split","C05_frag","C05_one","C05_eof","C05_in_header","C05_by_length","C05_gen"]],
+        gen_obligations=["Gen.HeaderLength","Gen.MessageBufferLength"],
+        trusted=CODEC_TRUST + ["Model.Stream hand-written from message.go readHeader/readBody and io.ReadFull's contract"],
+    ),
     "C16": dict(
         domains=[("codec", "answer", 6000, 100000)],
         relevant=["C16:"],
